@@ -139,6 +139,17 @@ def oracle_env(env, chosen_ids, hidden, n, init_ids, klass_ok=True, tol=1e-7):
     if mask != [i not in want for i in expl]:
         fails.append(("mask", mask))
     norm = env.normalized_game.get_values()
+    # the normalised copy itself, re-derived independently: (v(S) - sum of singletons) / (v(N) - sum of singletons)
+    fh = [frac(float(x)) for x in hidden]
+    singles = [fh[1 << i] for i in range(n)]
+    surplus = fh[2 ** n - 1] - sum(singles)
+    scale = max([1.0] + [abs(float(x)) for x in hidden])
+    if abs(float(surplus)) > 1e-9 * scale:
+        for i in range(2 ** n):
+            exp = (fh[i] - sum(singles[j] for j in range(n) if (i >> j) & 1)) / surplus
+            if abs(float(norm[i]) - float(exp)) > 1e-9 * max(1.0, abs(float(exp))) * max(1.0, scale / abs(float(surplus))):
+                fails.append(("normalised hidden value", i, float(norm[i]), float(exp)))
+                break
     st = env.state
     for j, i in enumerate(expl):
         exp = float(norm[i]) if i in want else 0.0
